@@ -663,6 +663,21 @@ pub fn judge_scenario(sc: &crate::props::big::Scenario, res: &crate::props::big:
             Ok(n >= 100_000 && g("height") >= 100_000)
         }
         Scenario::Bool { shape, n, op, .. } => {
+            if SHAPES[*shape] == "lattice" {
+                // n x n crossings: intersection = n^2 squares, difference = n * (n+1) pieces, union = one polygon with
+                // (n-1)^2 holes, xor = 2n(n+1) pieces
+                let k = *n as i64;
+                let (want_polys, want_rings) = match crate::exec::OPS[*op] {
+                    geo_booleanop::boolean::Operation::Intersection => (k * k, k * k),
+                    geo_booleanop::boolean::Operation::Difference => (k * (k + 1), k * (k + 1)),
+                    geo_booleanop::boolean::Operation::Union => (1, 1 + (k - 1) * (k - 1)),
+                    geo_booleanop::boolean::Operation::Xor => (2 * k * (k + 1), 2 * k * (k + 1)),
+                };
+                if g("polys") != want_polys || g("rings") != want_rings {
+                    return Err(Failure::new("child-wrong-answer", format!("scenario `{}` reported {:?}, expected polys={} rings={}", sc.text(), m, want_polys, want_rings)));
+                }
+                return Ok(g("events") >= 16 * g("edges"));
+            }
             if SHAPES[*shape] == "comb" {
                 let want = match crate::exec::OPS[*op] {
                     geo_booleanop::boolean::Operation::Intersection => Some(1),
@@ -885,6 +900,10 @@ pub fn c03_big_scenarios(tier: Tier) -> Vec<crate::props::big::Scenario> {
     for size in [1_000u64, 10_000] {
         v.push(Scenario::Bool { shape: 0, n: size, corner: 0, op: 0, stack_mib: 8 });
     }
+    // crossing-heavy inputs: K x K bar lattices (events grow with K^2 while the input has 8K edges)
+    for (k, op) in [(40u64, 0usize), (40, 1), (40, 2), (40, 3), (150, 0), (tier.pick(150, 400), 1), (tier.pick(100, 300), 3)] {
+        v.push(Scenario::Bool { shape: 3, n: k, corner: 0, op, stack_mib: 8 });
+    }
     v
 }
 
@@ -905,7 +924,7 @@ fn c03_common(tier: Tier, seed: u64, stats: &mut Stats, violations: &mut Vec<Vio
         violations.push(Violation { replay: p, clause: f.clause, detail: f.detail });
     }
     if violations.is_empty() {
-        let families = props::pair_families(tier, 96_000, 4_800_000, true, false);
+        let families = props::pair_families(tier, 96_000, 4_800_000, true, false, 28);
         let check: Box<CheckFn> = Box::new(c03_case);
         run_random("C03", seed, &families, &*check, stats, violations);
     }
@@ -944,7 +963,7 @@ pub fn run_c03(tier: Tier, part_out: Option<&str>) -> i32 {
         std::fs::write(out, serde_json::to_string(&v).unwrap()).expect("write part");
         return if violations.is_empty() { 0 } else { 1 };
     }
-    let rule = "(a) the robust-domain operand pairs of C01 (all 4 operations, one trait pairing, f64 and, when representable, f32), in a release build and in a build with debug assertions and overflow checks: the call must return and the guarded counter of processed sweep events must stay within B(n) = 4n^2+8n+16 (n = input edges); (b) 13 degenerate-but-valid operands (empty multipolygon, empty exterior, empty hole, ring of one repeated point, single-point ring, repeated consecutive vertices, ...) in all ordered pairs x 4 operations x allowed trait pairings x f64/f32, also judged by the membership oracle; (c) large parametric inputs (combs, grids, nested rings with a clipping box at each corner) in child processes; (d) adversarial inputs (small-lattice simple polygons with arbitrary slopes, x-squashed float stars in f64 and f32), in both builds, where panics with the exact signature of the recorded findings are tolerated and counted (K1/K2 everywhere, the debug assertions K3/K4 only in the build that has them). Non-trivial: (a) as C01; (b) sweep path taken; (c) >= 1e5 edges and >= 1e4 segments in the sweep line at the early stop; (d) bounding boxes overlap.";
+    let rule = "(a) the robust-domain operand pairs of C01 (all 4 operations, one trait pairing, f64 and, when representable, f32), in a release build and in a build with debug assertions and overflow checks: the call must return and the guarded counter of processed sweep events must stay within B(n) = 4n^2+8n+16 (n = input edges); (b) 13 degenerate-but-valid operands (empty multipolygon, empty exterior, empty hole, ring of one repeated point, single-point ring, repeated consecutive vertices, ...) in all ordered pairs x 4 operations x allowed trait pairings x f64/f32, also judged by the membership oracle; (c) large parametric inputs (combs, grids, nested rings with a clipping box at each corner) and crossing-heavy K x K bar lattices (K up to 150 quick / 400 thorough: the number of events grows with K^2 for 8K input edges) in child processes, with the polygon and ring counts checked; (d) adversarial inputs (small-lattice simple polygons with arbitrary slopes, x-squashed float stars in f64 and f32), in both builds, where panics with the exact signature of the recorded findings are tolerated and counted (K1/K2 everywhere, the debug assertions K3/K4 only in the build that has them). Non-trivial: (a) as C01; (b) sweep path taken; (c) >= 1e5 edges and >= 1e4 segments in the sweep line at the early stop, or (lattices) at least 16 events per input edge; (d) bounding boxes overlap.";
     let mut extra = json!({"builds": [build_name()]});
     // the other build
     let exe = std::env::current_exe().expect("exe");
@@ -1083,6 +1102,8 @@ pub fn add_fuzz(id: &str, tier: Tier, seed: u64, out: &mut Outcome) -> bool {
     }
     let runs: u64 = std::env::var("VERIF_FUZZ_RUNS").ok().and_then(|s| s.parse().ok()).unwrap_or(match id {
         "C16" | "C17" => 2_000_000,
+        // fz_stage runs C13-C15's oracles (quadratic in the number of sub-segments) under ASan: about 50 executions/s
+        "C13" | "C14" | "C15" => 60_000,
         _ => 300_000,
     });
     match fuzz_campaign(id, runs, seed) {
